@@ -21,15 +21,15 @@ import (
 
 // c16Env is shared by the actors of one execution.
 type c16Env struct {
-	x        *sched.Exec
-	w        *world.World
-	pending  int      // actor threads still running
-	obs      []string // observations (actor: result)
-	bad      []string // protocol violations noticed by actors
-	closing  bool     // a Close actor is part of the scenario
-	closed   bool     // Close has returned
-	held     int      // write transactions handed out by Begin(true) and not yet finished (engine-level actors)
-	failing  bool // a store-failure actor is part of the scenario
+	x       *sched.Exec
+	w       *world.World
+	pending int      // actor threads still running
+	obs     []string // observations (actor: result)
+	bad     []string // protocol violations noticed by actors
+	closing bool     // a Close actor is part of the scenario
+	closed  bool     // Close has returned
+	held    int      // write transactions handed out by Begin(true) and not yet finished (engine-level actors)
+	failing bool     // a store-failure actor is part of the scenario
 }
 
 func (e *c16Env) spawn(name string, fn func()) {
